@@ -42,6 +42,11 @@ def thrLoop (ts : Array Int) (ix : Array Bool) (en : Array Int) (t : Nat) (s : T
   else .ok s
 termination_by ts.size - t
 
+/-- state before the main loop: `new_start[0] = time_array[0]` when the first sample is kept -/
+def thrInit (n : Nat) (i0 : Bool) (t0 : Int) (k : Nat) : ThrSt :=
+  let none_ : Array (Option Int) := Array.replicate n none
+  { k := k, ns := if i0 then none_.setIfInBounds 0 (some (2*t0)) else none_, ne := none_ }
+
 /-- result: (mask of kept samples, doubled new starts, doubled new ends) -/
 def jitthreshold (ts : Array Int) (ix : Array Bool) (st en : Array Int) :
     R (Array Int × Array Int) := do
@@ -49,9 +54,7 @@ def jitthreshold (ts : Array Int) (ix : Array Bool) (st en : Array Int) :
   let k ← thrLead ts st 0
   let i0 ← rdB ix 0
   let t0 ← rd ts 0
-  let none_ : Array (Option Int) := Array.replicate n none
-  let ns := if i0 then none_.setIfInBounds 0 (some (2*t0)) else none_
-  let s ← thrLoop ts ix en 1 { k := k, ns := ns, ne := none_ }
+  let s ← thrLoop ts ix en 1 (thrInit n i0 t0 k)
   -- after the loop `t = max 1 (n-1)`
   let t := if n ≥ 2 then n - 1 else 1
   let it ← rdB ix t
